@@ -124,9 +124,9 @@ class EnumNameProvider(BaseEnumProvider):
             try:
                 return mapping[data]
             except KeyError:
-                raise BadVariantLoadError(variants, data) from None
+                raise BadVariantLoadError(list(variants), data) from None
             except TypeError:
-                raise BadVariantLoadError(variants, data)
+                raise BadVariantLoadError(list(variants), data)
 
         return enum_loader
 
@@ -208,12 +208,12 @@ class EnumExactValueProvider(BaseEnumProvider):
             def enum_exact_loader(data):
                 # since MyEnum(MyEnum.MY_CASE) == MyEnum.MY_CASE
                 if type(data) is enum:
-                    raise BadVariantLoadError(variants, data)
+                    raise BadVariantLoadError(list(variants), data)
 
                 try:
                     return enum(data)
                 except ValueError:
-                    raise BadVariantLoadError(variants, data) from None
+                    raise BadVariantLoadError(list(variants), data) from None
 
             return enum_exact_loader
 
@@ -221,9 +221,9 @@ class EnumExactValueProvider(BaseEnumProvider):
             try:
                 return value_to_member[data]
             except KeyError:
-                raise BadVariantLoadError(variants, data) from None
+                raise BadVariantLoadError(list(variants), data) from None
             except TypeError:
-                raise BadVariantLoadError(variants, data)
+                raise BadVariantLoadError(list(variants), data)
 
         return enum_exact_loader_v2m
 
@@ -375,7 +375,7 @@ class FlagByListProvider(BaseFlagProvider):
 
             if bad_variants:
                 raise MultipleBadVariantLoadError(
-                    allowed_values=variants,
+                    allowed_values=list(variants),
                     invalid_values=bad_variants,
                     input_value=data,
                 )
